@@ -1,7 +1,7 @@
 (* C05: the FCC source line, end to end (parse + translate + emit), on the regenerated table row. *)
 From V Require Import Base.
 From V.model Require Import MText MValues MOperands MProgram.
-From V.proofs Require Import PRender PC05 PC18 PC01src PC05list.
+From V.proofs Require Import PRender PC05 PC18 PC01text PC01acc PC01src PC05list.
 From V.gen Require Tables.
 Local Open Scope N_scope.
 
@@ -63,4 +63,85 @@ Proof.
   rewrite <- Hm in Hi.
   exists (stmt_of f i (OPseudo (join 44 parts) v)), p.
   split; [apply (parse_ok f i _ Hf Hi Hsd); rewrite Ho; exact Hc|]. split; [reflexivity|]. split; [exact Ht | exact Hrest].
+Qed.
+
+(* a single FCB literal, from the SOURCE LINE: any layout, a decimal or $hex literal in any spelling that fits one byte *)
+
+Lemma mem_c_notin c t : ~ In c t -> mem_c c t = false.
+Proof.
+  induction t as [|x t IH]; intros H; [reflexivity|]. cbn in *.
+  destruct (N.eqb_spec x c) as [E|E]; [exfalso; apply H; now left|]. cbn. apply IH. intros Hin. apply H. now right.
+Qed.
+
+Lemma lit_no_comma l : lit_ok l -> mem_c 44 (lit_text l) = false.
+Proof.
+  intros Hl. apply mem_c_notin. destruct (lit_digits l Hl) as (c & ds & Hx & _ & Hn & _).
+  destruct l as [x|x]; cbn [lit_text] in *; subst x; [exact Hn|]. intros [E|Hin]; [discriminate | exact (Hn Hin)].
+Qed.
+
+Theorem fcb_literal_line_emits_its_value f l :
+  well_formed_fields f -> upper_t (lf_mn f) = FCB_t -> lf_ops f = lit_text l -> lit_ok l -> lit_value l <= 255 ->
+  exists st p, parse_line (line_of f) = Ok (Some st) /\ s_label st = lf_label f /\
+    translate_operand (s_operand st) (s_instr st) = Ok p /\
+    cp_size p = 1 /\ emit_value (cp_op p) = Ok [] /\ emit_value (cp_post p) = Ok [] /\
+    emit_value (cp_add p) = Ok [lit_value l].
+Proof.
+  intros Hf Hm Ho Hl Hle.
+  destruct (find_instr FCB_t Tables.instructions) as [i|] eqn:Hi; [|vm_compute in Hi; discriminate].
+  assert (Hrow : Tables.is_string_define i = false /\ Tables.is_pseudo i = true /\ Tables.is_multi_byte i = true /\
+                 Tables.is_pseudo_define i = false /\ Tables.is_16_bit i = false /\ text_eqb (mnem i) FCB_t = true)
+    by (vm_compute in Hi; injection Hi as <-; repeat split; reflexivity).
+  destruct Hrow as (Hsd & Hps & Hmb & Hpd & H16 & Hfcb).
+  destruct (value_core_lit l None MExtended Hl) as (n & Hv & _ & Hint & Hneg).
+  pose proof (lit_no_comma l Hl) as Hnc.
+  assert (Hc : create_operand (lf_ops f) i = Ok (OPseudo (lit_text l) (VNum n))).
+  { rewrite Ho. unfold create_operand. rewrite Hps. unfold pseudo_operand. rewrite Hmb, Hnc, Hpd. cbn [andb negb].
+    unfold create_value. rewrite Hsd, H16, (value_of_text_plain l false true Hl). rewrite Hv. rewrite !andb_false_r. reflexivity. }
+  assert (Hfit : exists a, fit_value (VNum n) 2 true = Ok a).
+  { apply fit_value_total; [exact Hneg | rewrite Hint; lia | rewrite Hint; change (16 ^ Z.of_N 2)%Z with 256%Z; lia]. }
+  destruct Hfit as (a & Ha).
+  assert (Ht : translate_operand (OPseudo (lit_text l) (VNum n)) i = Ok (data_pkg a 1)).
+  { rewrite translate_fcb by (assumption || reflexivity). rewrite Ha. reflexivity. }
+  destruct (fcb_single_value i (lit_text l) (VNum n) _ Hfcb eq_refl Ht) as (_ & Hs & H1 & H2 & H3).
+  rewrite <- Hm in Hi.
+  exists (stmt_of f i (OPseudo (lit_text l) (VNum n))), (data_pkg a 1).
+  split; [exact (parse_ok f i _ Hf Hi Hsd Hc)|]. split; [reflexivity|]. split; [exact Ht|].
+  repeat split; try assumption.
+  rewrite H3. unfold value_number. cbn [v_negative v_int]. rewrite Hneg, Hint.
+  rewrite Z.mod_small by lia. now rewrite N2Z.id.
+Qed.
+
+Theorem fdb_literal_line_emits_its_value f l :
+  well_formed_fields f -> upper_t (lf_mn f) = FDB_t -> lf_ops f = lit_text l -> lit_ok l -> lit_value l <= 65535 ->
+  exists st p, parse_line (line_of f) = Ok (Some st) /\ s_label st = lf_label f /\
+    translate_operand (s_operand st) (s_instr st) = Ok p /\
+    cp_size p = 2 /\ emit_value (cp_op p) = Ok [] /\ emit_value (cp_post p) = Ok [] /\
+    emit_value (cp_add p) = Ok [lit_value l / 256; lit_value l mod 256].
+Proof.
+  intros Hf Hm Ho Hl Hle.
+  destruct (find_instr FDB_t Tables.instructions) as [i|] eqn:Hi; [|vm_compute in Hi; discriminate].
+  assert (Hrow : Tables.is_string_define i = false /\ Tables.is_pseudo i = true /\ Tables.is_multi_byte i = false /\
+                 Tables.is_multi_word i = true /\
+                 Tables.is_pseudo_define i = false /\ Tables.is_16_bit i = false /\ text_eqb (mnem i) FCB_t = false /\
+                 text_eqb (mnem i) FDB_t = true)
+    by (vm_compute in Hi; injection Hi as <-; repeat split; reflexivity).
+  destruct Hrow as (Hsd & Hps & Hmb & Hmw & Hpd & H16 & Hfcb & Hfdb).
+  destruct (value_core_lit l None MExtended Hl) as (n & Hv & _ & Hint & Hneg).
+  pose proof (lit_no_comma l Hl) as Hnc.
+  assert (Hc : create_operand (lf_ops f) i = Ok (OPseudo (lit_text l) (VNum n))).
+  { rewrite Ho. unfold create_operand. rewrite Hps. unfold pseudo_operand. rewrite Hmb, Hmw, Hnc, Hpd. cbn [andb negb].
+    unfold create_value. rewrite Hsd, H16, (value_of_text_plain l false true Hl). rewrite Hv. reflexivity. }
+  assert (Hfit : exists a, fit_value (VNum n) 4 true = Ok a).
+  { apply fit_value_total; [exact Hneg | rewrite Hint; lia | rewrite Hint; change (16 ^ Z.of_N 4)%Z with 65536%Z; lia]. }
+  destruct Hfit as (a & Ha).
+  assert (Ht : translate_operand (OPseudo (lit_text l) (VNum n)) i = Ok (data_pkg a 2)).
+  { rewrite translate_fdb by (assumption || reflexivity). rewrite Ha. reflexivity. }
+  destruct (fdb_single_value i (lit_text l) (VNum n) _ Hfcb Hfdb eq_refl Ht) as (_ & Hs & H1 & H2 & H3).
+  rewrite <- Hm in Hi.
+  exists (stmt_of f i (OPseudo (lit_text l) (VNum n))), (data_pkg a 2).
+  split; [exact (parse_ok f i _ Hf Hi Hsd Hc)|]. split; [reflexivity|]. split; [exact Ht|].
+  repeat split; try assumption.
+  rewrite H3. unfold value_number. cbn [v_negative v_int]. rewrite Hneg, Hint.
+  rewrite Z.mod_small by lia.
+  change 256%Z with (Z.of_N 256). rewrite <- N2Z.inj_div, <- N2Z.inj_mod, !N2Z.id. reflexivity.
 Qed.
